@@ -38,3 +38,12 @@ Definition bytes_ok (r : rendering) (m : gdoc) : bool :=
   && forallb no13 (r_ws_root r) && forallb no13 (r_ws_head r) && forallb no13 (r_ws_meta r)
   && forallb no13 (r_ws_styling r) && forallb no13 (r_ws_layout r) && forallb no13 (r_ws_body r)
   && forallb no13 (r_ws_div r).
+
+(* What makes the byte-level statement true of the library as well: ReadFromTTML strips the indentation of a paragraph's
+   inner XML line-wise; a line break between attributes inside a tag is replaced by a blank (repo fix "keeps attributes
+   apart ..."), but a line break INSIDE a quoted attribute value of an element inside a paragraph is replaced too, which
+   changes the value: such values are excluded. *)
+Definition span_values_ok (g : group) : bool :=
+  match g with GSpan _ _ al _ _ => forallb (fun a => no_nl (snd a)) al | _ => true end.
+Definition bytes_ok_go (r : rendering) (m : gdoc) : bool :=
+  bytes_ok r m && forallb (fun p => forallb span_values_ok (rp_groups p)) (r_paras r).
